@@ -37,7 +37,7 @@ EXPLANATION = (
     'holds, YAML is entered only from AFTER_TEST) plus the prefix table (YAML only for version >= 13 on a YAML-start line, end / '
     'body / unterminated rows; a blank line - empty after removing trailing white space - yields no event in any state: inside a YAML block it is part of the block whether or not it carries the indentation; worlds "blank and YAML marker" pruned by a regex-language fact) and "every test-line row ends in AFTER_TEST, nothing else writes it"; R2 event constructors and '
     'operand roles per row for test / plan / Bail out / version / unknown / end-of-stream and the seven parse_test rows, the six '
-    'line forms denoted by the regex constants (group roles from the regex structure, specification samples, pairwise disjoint; a directive group that also captures a word that is neither SKIP... nor TODO - e.g. TODOS, TODO-later - is reported; the number groups of the test / plan / version patterns match ASCII digits only - no \\d without the ASCII flag), '
+    'line forms denoted by the regex constants (group roles from the regex structure, specification samples, pairwise disjoint; a directive group that also captures a word that is neither SKIP... nor TODO - e.g. TODOS, TODO-later - is reported; the number groups of the test / plan / version patterns match ASCII digits only - no \\d without the ASCII flag; the status word of the test pattern is delimited: ok / not ok continued by a word character - okay, ok_then, ok1 - is no test line, while ok, ok 1, ok - d, ok # SKIP are), '
     'parse/parse_async pass every line then exactly one EOF (second call, chained None marker, or a private pass-through generator that yields the marker); R3 per-row effect shapes num_tests+1 once, last_test := last_test+1 '
     'if the number group is None else int(group), highest_test := max(highest_test, new last_test), beyond-plan test is '
     'plan.num_tests < new last_test, lineno+1 once, and the retention clause (if a test number is used only for last_test, the running maximum, the plan bound and the Test event, duplicates with count == maximum cannot be reported; a running sum `field += number` is one more scalar: `1,1,4,4` and `1,2,3,4` agree on count, maximum and sum); R4 int() fed by a capture group whose language is an unbounded digit run must (and text conversion of a number that can be such an int + 1 must) '
@@ -1929,6 +1929,25 @@ def r2(ctx: RuleCtx) -> None:
                            'plan': f'`1..{wit.get(i, "")}` becomes a plan', 'version': f'`TAP version {wit.get(i, "")}` becomes a version line'}.get(kind, 'is misread')
                         + '; TAP numbers are ASCII decimal digits', mod.assign_value(name, f.cls))
     ctx.floor('digits groups of the line-form patterns', n_digit_groups, 3)
+    # the status word of a test line is a word: `ok` / `not ok` ends at white space or at the end of the line (regex-language fact of the folded pattern)
+    c18_rx.status_word_selfcheck()
+    n_status = 0
+    for kind, (name, form) in f.forms.items():
+        if 'status' not in form.roles.values():
+            continue
+        n_status += 1
+        pat = f.regexes[name]
+        taken, refused = c18_rx.status_word_problems(pat.pattern, pat.flags)
+        ctx.require(not taken, f'{name}: a line that continues the status word with a word character (okay, ok_then, ok1) is no {kind} line', mod, PARSER,
+                    f'{kind}-line pattern: the status word is not delimited',
+                    f'{name} = {pat.pattern!r} has no boundary after the status word: `re.match` takes {", ".join(repr(t) for t in taken)} for {kind} lines '
+                    f'(e.g. the output line `okay then` becomes the passed test 1 named "ay then", `not okay` a failed test named "ay"), although a TAP 12/13 '
+                    f'{kind} line is `ok` / `not ok` followed by white space or the end of the line (consumers read /^(not )?ok\\b/): such a line is an unknown '
+                    f'line (an error under TAP 13, ignored under TAP 12), not a test result', mod.assign_value(name, f.cls))
+        ctx.require(not refused, f'{name}: the delimited {kind} lines (status word, then white space or the end of the line) are accepted', mod, PARSER,
+                    f'{kind}-line pattern: a delimited status word is refused',
+                    f'{name} = {pat.pattern!r} does not match the {kind} line(s) {", ".join(repr(t) for t in refused)}', mod.assign_value(name, f.cls))
+    ctx.floor('line-form patterns with a status word', n_status, 1)
     for i, a in enumerate(MAIN_KINDS):
         for b in MAIN_KINDS[i + 1:]:
             pa, pb = f.regexes[f.forms[a][0]], f.regexes[f.forms[b][0]]
